@@ -63,6 +63,9 @@ func (c15) Gen(r *sim.Rand, tier string, run uint64) *sim.Scenario {
 		if r.Chance(1, 3) {
 			plan = r.Range(1, 3)
 			k = r.Intn(12)
+			if r.Chance(1, 5) {
+				plan = sim.SinkShortOnce
+			}
 		}
 		l := sim.Op{K: "listing", N: []int64{int64(r.Intn(2)), int64(plan), int64(k)}}
 		ops = append(ops[:at], append([]sim.Op{l}, ops[at:]...)...)
@@ -440,7 +443,7 @@ func (c15) Exec(sc *sim.Scenario, env *sim.Env) *sim.Violation {
 			continue
 		case "listing":
 			kind, plan, k := op.Arg(0)&1, int(op.Arg(1)), int(op.Arg(2))
-			if plan < 0 || plan > 3 {
+			if plan < 0 || (plan > 3 && plan != sim.SinkShortOnce) {
 				plan = 0
 			}
 			pre := snapEmitter(e)
@@ -484,11 +487,19 @@ func (c15) Exec(sc *sim.Scenario, env *sim.Env) *sim.Violation {
 			st.ProbeIf(len(m.Refs) > 0, "listing_with_refs")
 			if plan != sim.SinkOK {
 				fs := sim.NewSink(env, plan, k)
-				p, pmsg, _ := doListing(e, kind, fs)
+				p, pmsg, ferr := doListing(e, kind, fs)
 				if p {
 					return &sim.Violation{Oracle: "listing_panic_sink_fault", Step: i, Msg: fmt.Sprintf("listing through a failing sink (plan %d at write %d) panicked: %s", plan, k, pmsg)}
 				}
 				st.ProbeIf(fs.Failed > 0 && len(fs.Writes) > 0, "sink_fail_midway")
+				// a listing that reports success has delivered the listing: each byte once, in
+				// order (what a listing that reports the writer's error has delivered is its own
+				// business)
+				if ferr == nil && fs.Failed > 0 {
+					if got, full := string(fs.All()), string(h0.All()); got != full {
+						return &sim.Violation{Oracle: "listing_garbled_by_fault", Step: i, Msg: fmt.Sprintf("the writer failed at write %d (plan %d) but the listing call reported success; the %d bytes the writer accepted are not the listing (%d bytes; first difference at byte %d)", k, plan, len(got), len(full), firstDiff([]byte(got), []byte(full)))}
+					}
+				}
 				post := snapEmitter(e)
 				if d := pre.diff(post, true); d != "" || post.Err != "" {
 					return &sim.Violation{Oracle: "listing_altered_program", Step: i, Msg: "a listing through a failing sink changed the emitter: " + d + post.Err}
